@@ -253,6 +253,32 @@ theorem config_astar_distance_route_least_cost (c : Config α) (h : c.EdgeLocal)
         (route.map (fun b => b.access + b.traversal)).sum ≤ cost c.costOf es :=
   _root_.Compass.config_astar_distance_route_least_cost c h M hts hrun
 
+/-- **`estimate_admissible`** (speed-table model): as for the distance model, with positive
+lengths, positive table speeds and `max_speed ≥` every table speed (`Config.SpeedMetric`) -/
+theorem config_speed_estimate_admissible (c : Config α) (hadj : c.AdjConsistent)
+    {su : SpeedUnit} {du : DistanceUnit} {tu : TimeUnit} {ms : α} {table : List α} {t : Nat}
+    (M : c.SpeedMetric su du tu ms table t) : Admissible c.inst c.okOf c.costOf c.hOf t :=
+  c.speed_estimate_admissible hadj M
+
+/-- **A\* on a concrete configuration with its own estimate** (speed-table model) -/
+theorem config_astar_speed_route_least_cost (c : Config α) (h : c.EdgeLocal)
+    {su : SpeedUnit} {du : DistanceUnit} {tu : TimeUnit} {ms : α} {table : List α}
+    {source t : Nat} (M : c.SpeedMetric su du tu ms table t) (hts : t ≠ source)
+    {sched : List Nat} {r : AlgResult α} (hrun : c.runVertex source (some t) sched = .ok r) :
+    ∃ route, r.routes = [route] ∧ route ≠ [] ∧
+      Walk c.inst c.okOf source (route.map (·.edge)) t ∧
+      (route.map (fun b => b.access + b.traversal)).sum = cost c.costOf (route.map (·.edge)) ∧
+      ∀ es, Walk c.inst c.okOf source es t →
+        (route.map (fun b => b.access + b.traversal)).sum ≤ cost c.costOf es :=
+  _root_.Compass.config_astar_speed_route_least_cost c h M hts hrun
+
+/-- the premise on the rates is the property's own list: rates built from
+`zero / raw / factor f ≥ 0 / combined` of those are linear and non-decreasing -/
+theorem listed_rates_linear (m : CostModel α)
+    (h : ∀ i ∈ m.indices, (m.vr i).offsetFree = true ∧ 0 ≤ m.wt i) :
+    m.LinearRates ∧ m.NonnegRates :=
+  m.rates_of_offsetFree h
+
 /-! ### Non-vacuity of the generalisation itself: `Example.exInstS` prices malformed states wrongly, so
 it is outside `UniformCost`, and inside `UniformOn` with the invariant "the state has one slot" -/
 
@@ -352,6 +378,17 @@ example : ∃ r route, exA.runVertex 0 (some 3) [0, 1, 2, 3] = .ok r ∧ r.route
   obtain ⟨r, hr⟩ := ok_of_routeEdgesOf exA_run
   obtain ⟨route, h1, _, _, _, h5⟩ :=
     config_astar_distance_route_least_cost exA exA_edgeLocal exA_metric (by decide) hr
+  exact ⟨r, route, hr, h1, h5⟩
+
+/-- `exSA` (speed table, time cost, weight factor one) meets `SpeedMetric` -/
+example : exSA.hOf 0 ≠ 0 ∧ ∃ r route, exSA.runVertex 0 (some 3) [0, 1, 2, 3] = .ok r ∧
+    r.routes = [route] ∧
+    ∀ es, Walk exSA.inst exSA.okOf 0 es 3 →
+      (route.map (fun b => b.access + b.traversal)).sum ≤ cost exSA.costOf es := by
+  refine ⟨exSA_h0, ?_⟩
+  obtain ⟨r, hr⟩ := ok_of_routeEdgesOf exSA_run
+  obtain ⟨route, h1, _, _, _, h5⟩ :=
+    config_astar_speed_route_least_cost exSA exSA_edgeLocal exSA_metric (by decide) hr
   exact ⟨r, route, hr, h1, h5⟩
 
 end
